@@ -219,10 +219,10 @@ func (f *Field) NewVal(v *big.Int) reflect.Value {
 	return f.NewRaw(f.ToMont(new(big.Int).Mod(v, f.Q)))
 }
 
-// NewVec builds a Vector from raw values. It is a window into a larger array at a rotating offset (a fresh allocation is
-// 64-byte aligned, a window is not: vector kernels must not assume alignment), with spare capacity behind it.
 var newVecCount int
 
+// NewVec builds a Vector from raw values. It is a window into a larger array at a rotating offset (a fresh allocation is
+// 64-byte aligned, a window is not: vector kernels must not assume alignment), with spare capacity behind it.
 func (f *Field) NewVec(raws []*big.Int) reflect.Value {
 	newVecCount++
 	off := newVecCount % 4
